@@ -295,6 +295,41 @@ class Check:
                                          "property oracle fails on the implementation" if isprop else "model and implementation disagree",
                                          shrunk, det))
 
+    def diff_judge(self, ops_file, model_file, max_report=8):
+        """judge mode (HUB.md): the op stream is a recorded trace of the implementation; the Lean judge answers
+        `ok`, `MISMATCH …` (model store disagrees with the recorded answer: correspondence) or `FAIL …` (a property
+        rule/oracle is violated by the recorded execution: concrete failing input = the trace up to that event)."""
+        ops = open(ops_file).read().splitlines()
+        model = open(model_file).read().splitlines()
+        n = min(len(ops), len(model))
+        if len(ops) != len(model):
+            self.problems.append(Problem("tie", f"stream lengths differ ops={len(ops)} judge={len(model)}"))
+        real = [i for i in range(n) if not ops[i].startswith("#")]
+        self.cov["evaluations"] += len(real)
+        self.cov["distinct_nontrivial"] += len(set(ops[i] for i in real))
+        cases = split_cases(ops[:n])
+        self.cov["traces_validated_against_impl"] += len(cases)
+        if len(self.cov["samples"]) < 6 and real:
+            a, b = cases[0]
+            self.cov["samples"].append({"trace_head": ops[a:min(b, a + 25)]})
+        reported = {"property": 0, "correspondence": 0}
+        for (a, b) in cases:
+            bad = [i for i in range(a, b) if not ops[i].startswith("#") and model[i] != "ok"]
+            if not bad:
+                continue
+            self.cov["disagreements_checked"] += len(bad)
+            fails = [i for i in bad if model[i].startswith("FAIL")]
+            first = fails[0] if fails else bad[0]
+            kind = "property" if fails else "correspondence"
+            if reported[kind] >= max_report:
+                continue
+            reported[kind] += 1
+            trace = [o for o in ops[a:first + 1] if not o.startswith("#")]
+            self.problems.append(Problem(kind,
+                                         "the recorded execution violates a rule/oracle of the property" if fails
+                                         else "model store and implementation disagree on a recorded answer",
+                                         trace, f"event {first - a}: {ops[first]} | judge: {model[first]}"))
+
     def _run_case(self, case_ops, hbin, exe, exe_args):
         rp = os.path.join(self.work, "shrink.replay")
         with open(rp, "w") as f:
